@@ -61,3 +61,20 @@ namespace wit { inline void use_tuple(frg::tuple<int, char> a, frg::tuple<long> 
 	(void)frg::apply([](int, char, long) { return 0; }, std::move(c));
 	(void)frg::make_tuple(1, 2);
 } }
+// Overload-resolution witnesses (rule W.copy-selects-copy): copying a NON-CONST lvalue must select the copy
+// constructor, not a forwarding constructor template (which wins for T = bool and other greedily constructible T).
+namespace wit { struct Greedy { Greedy(); template<typename X> Greedy(X &&); };
+inline void probe_copy_select(frg::optional<bool> &ob, frg::optional<wit::Elem> &oe, frg::optional<Greedy> &og,
+		frg::variant<wit::Elem, wit::Other, int> &v, frg::expected<wit::Err, wit::Elem> &ex) {
+	frg::optional<bool> c1(ob); frg::optional<wit::Elem> c2(oe); frg::optional<Greedy> c3(og);
+	frg::variant<wit::Elem, wit::Other, int> c4(v); frg::expected<wit::Err, wit::Elem> c5(ex);
+	(void)c1; (void)c2; (void)c3; (void)c4; (void)c5;
+} }
+// lvalue uses of the tuple helpers: a reference-collapsing parameter instantiated as an lvalue reference must be
+// forwarded, never std::move()d (rule R.forward-collapsed)
+namespace wit { inline void use_tuple_lvalues(frg::tuple<int, char> &a, frg::tuple<long> &b, const frg::tuple<int, char> &ca) {
+	auto c = frg::tuple_cat(a, b);
+	auto d = frg::tuple_cat(ca, b);
+	(void)frg::apply([](int, char) { return 0; }, ca);
+	(void)c; (void)d;
+} }
